@@ -463,11 +463,16 @@ class Built:
         from symplyphysics.core.experimental.vectors import VectorFunction, VectorSymbol
         self.t = sympy.Symbol("t", real=True)
         self.V: list[Any] = []
+        # display names from a tiny pool (derived from the case): distinct atoms often share a name and must still be
+        # treated as distinct vectors by the solvers
+        pool_ = ["a", "b", "a", "F"]
+        salt = case["k"] + sum(1 for x in case["fun"] if x)
         for i in range(case["k"]):
+            name = pool_[(i * 3 + salt) % len(pool_)]
             if case["fun"][i]:
-                self.V.append(VectorFunction(f"f{i}", (self.t,))(self.t))
+                self.V.append(VectorFunction(name, (self.t,))(self.t))
             else:
-                self.V.append(VectorSymbol(f"w{i}"))
+                self.V.append(VectorSymbol(name))
         self.S = [sympy.Symbol(f"s{j}", real=True) for j in range(NS)]
         self.X: Any = None
 
